@@ -1,6 +1,9 @@
 import KdVerif.Model.Filters
 import KdVerif.Proofs.PyIRFl
 import KdVerif.Gen.PyIRFl
+import KdVerif.Gen.Enums
+import KdVerif.Gen.PyIRCli
+import KdVerif.Proofs.PyIRCli
 /-
   C12 — event filters select exactly the matching subsequence.
 
@@ -415,5 +418,158 @@ example : PyIRFl.runIsEventidAllowed Gen.PyIRFl.prog { filterClass := [4], filte
     = .ok (.bool true) := by decide
 example : PyIRFl.runIsEventidAllowed Gen.PyIRFl.prog { filterClass := [4] } 0x040c0004 (some [1]) = .ok (.bool false) := by
   decide
+
+end KdVerif.C12
+
+/-! ### Translation tie: the command-line glue in front of the filters
+
+  (`tools/gen_pyir_cli.py` → `Gen/PyIRCli.lean`; IR and interpreter `Model/PyIRCli`; expected terms `Spec/PyIRCliExpected`.)
+  Between the user and `kevents()` stand `pykdebugparser/__main__.py` — the option declarations, the command callbacks that
+  assign option values to attributes of a fresh parser object, `print_with_count` — and `PyKdebugParser.__init__` (what an
+  attribute is when no command assigns it) and the `formatted_*` maps.  All of it is translated from the source text on
+  every run.  The interpreter starts from what click hands to a callback (`Given`: per option, the converted value if the
+  user gave it), fills in the DECLARED defaults, calls the callback by keyword and runs its body; what a `formatted_*`
+  method does is a parameter (`World`: a function of the object's attributes and the dump).  `configOf` / `showOf` are the
+  records the hand models take; negative filter numbers are sent where no thread id / class / subclass is (`natOf`, as
+  the harness does). -/
+namespace KdVerif.C12
+open KdVerif.Filters KdVerif.PyIRCli
+
+/-- **Every term the translator generates from `__main__.py` and from `__init__` / `formatted_*` is the expected one**
+    (`Spec/PyIRCliExpected`, quoting the Python), and the translator met nothing it could not express: `print_with_count`,
+    `BASED_INT`, the seven commands with their option declarations (names, spellings, kinds, defaults, `multiple`), every
+    attribute default of `__init__`, the four maps. -/
+theorem cli_source_is_expected_ir :
+    Gen.PyIRCli.printWithCount = PyIRCli.Expected.printWithCount ∧
+    Gen.PyIRCli.basedInt = PyIRCli.Expected.basedInt ∧
+    Gen.PyIRCli.kevents = PyIRCli.Expected.kevents ∧
+    Gen.PyIRCli.traces = PyIRCli.Expected.traces ∧
+    Gen.PyIRCli.callstacks = PyIRCli.Expected.callstacks ∧
+    Gen.PyIRCli.processes = PyIRCli.Expected.processes ∧
+    Gen.PyIRCli.kexts = PyIRCli.Expected.kexts ∧
+    Gen.PyIRCli.images = PyIRCli.Expected.images ∧
+    Gen.PyIRCli.logs = PyIRCli.Expected.logs ∧
+    Gen.PyIRCli.init = PyIRCli.Expected.init ∧
+    Gen.PyIRCli.formattedKevents = PyIRCli.Expected.formattedKevents ∧
+    Gen.PyIRCli.formattedTraces = PyIRCli.Expected.formattedTraces ∧
+    Gen.PyIRCli.formattedCallstacks = PyIRCli.Expected.formattedCallstacks ∧
+    Gen.PyIRCli.formattedLogs = PyIRCli.Expected.formattedLogs ∧
+    Gen.PyIRCli.notes = [] := by decide
+
+/-- the generated program record is the expected one -/
+theorem cli_prog_is_expected : Gen.PyIRCli.prog = PyIRCli.Expected.prog := by
+  obtain ⟨h1, _, _, _, _, _, _, _, _, h2, h3, h4, h5, h6, _⟩ := cli_source_is_expected_ir
+  simp only [Gen.PyIRCli.prog, PyIRCli.Expected.prog, h1, h2, h3, h4, h5, h6]
+
+/-- **`PyKdebugParser.__init__` of the source, interpreted, builds the parser the hand models assume**: exactly the twenty
+    attributes of `freshObj`, which read as the default filter configuration (`Filters.Cfg`: no thread / process filter,
+    empty class and subclass lists), the default column switches (`Format.Show`: every column but the thread id),
+    colour on, no wall-clock parameter set (`_format_timestamp` prints ticks), empty tables and image lists. -/
+theorem init_defaults_ir_eq_model :
+    initObj Gen.PyIRCli.init [] = .ok freshObj ∧
+    cfgOfObj freshObj = some ({} : Cfg) ∧ showOfObj freshObj = some ({} : Format.Show) ∧
+    colorOfObj freshObj = some true ∧ wallClockUnset freshObj = true ∧ tablesEmpty freshObj = true := by
+  refine ⟨by rw [cli_source_is_expected_ir.2.2.2.2.2.2.2.2.2.1]; rfl, by decide, by decide, by decide, by decide, by decide⟩
+
+/-- **The `kevents` command of the source, interpreted** (any meaning `W` of `formatted_kevents`): on the options `g`
+    (`--process` / `--color` are not options of this command) it prints
+    `print_with_count(parser.formatted_kevents(dump), count)` for the parser object `keventsObj o` — `o` the option values
+    in force, the declared defaults filled in (`count = -1`, `tid = None`, `show_tid = False`, no class / subclass
+    value) —, whose attributes read as `configOf o` without process filter, `showOf o` (thread-id column iff
+    `--show-tid`), colour as `__init__` leaves it (on), no wall-clock parameter, empty tables. -/
+theorem kevents_command_ir_eq_model {δ τ : Type} (W : World δ τ) (g : Given) (hp : g.process = none) (hc : g.color = none)
+    (dump : δ) :
+    run Gen.PyIRCli.prog W Gen.PyIRCli.kevents g.args dump =
+      pwcResult (W.formatted "formatted_kevents" (keventsObj (Opts.ofGiven g)) dump) (Opts.ofGiven g).count ∧
+    cfgOfObj (keventsObj (Opts.ofGiven g)) = some (configOf (Opts.ofGiven g)) ∧
+    showOfObj (keventsObj (Opts.ofGiven g)) = some (showOf (Opts.ofGiven g)) ∧
+    colorOfObj (keventsObj (Opts.ofGiven g)) = some true ∧
+    wallClockUnset (keventsObj (Opts.ofGiven g)) = true ∧ tablesEmpty (keventsObj (Opts.ofGiven g)) = true := by
+  refine ⟨?_, ?_, show_objWith .., color_objWith .., (unset_objWith ..).1, (unset_objWith ..).2⟩
+  · rw [cli_prog_is_expected, cli_source_is_expected_ir.2.2.1]; exact run_kevents_expected W g hp hc dump
+  · rw [cfg_keventsObj]; simp [configOf, Opts.ofGiven, hp]
+
+/-- `formatted_kevents` as the hand model of `Model/Format` has it: the object's filter attributes and column switches
+    configure `Format.formattedKevents` (enum `qe`, code table `codes`, tables `t` as there). -/
+def keventsWorld (qe : EnumDef) (codes : List (Nat × String)) (t : Format.Tables) : World (List Item) Unit :=
+  { formatted := fun m o items =>
+      if m = "formatted_kevents" then
+        match cfgOfObj o, showOfObj o with
+        | some cfg, some sh => (Format.formattedKevents cfg sh qe codes t items, none)
+        | _, _ => ([], some .unmodelled)
+      else ([], some .attributeError)
+    parseAll := fun _ => .error .unmodelled
+    jsonDumps := fun _ _ _ => .error .unmodelled }
+
+/-- **`kevents` command = `print_with_count` of the hand model under `configOf`**: every option reaches exactly the
+    attribute the model reads — `--tid` the thread filter, `-cf` / `-sf` the class / subclass lists (in the order given),
+    `--show-tid` the thread-id column, `-c` the count; defaults included. -/
+theorem kevents_command_ir_eq_hand_model (qe : EnumDef) (codes : List (Nat × String)) (t : Format.Tables) (g : Given)
+    (hp : g.process = none) (hc : g.color = none) (items : List Item) :
+    run Gen.PyIRCli.prog (keventsWorld qe codes t) Gen.PyIRCli.kevents g.args items =
+      .ran (printWithCount (Format.formattedKevents (configOf (Opts.ofGiven g)) (showOf (Opts.ofGiven g)) qe codes t items)
+              (Opts.ofGiven g).count) none := by
+  obtain ⟨h, hcfg, hsh, _⟩ := kevents_command_ir_eq_model (keventsWorld qe codes t) g hp hc items
+  rw [h]
+  simp only [keventsWorld, hcfg, hsh, if_true, pwcResult, pwcOutcome, ite_self]
+
+/-- … hence (with `kevents_eq_filter`) the lines the command prints are the formatted events the declarative predicate
+    selects under the user's options, cut by `-c`. -/
+theorem kevents_command_prints_selected (qe : EnumDef) (codes : List (Nat × String)) (t : Format.Tables) (g : Given)
+    (hp : g.process = none) (hc : g.color = none) (items : List Item) :
+    run Gen.PyIRCli.prog (keventsWorld qe codes t) Gen.PyIRCli.kevents g.args items =
+      .ran (printWithCount
+        (((events items).filter fun e => decide (Sel (configOf (Opts.ofGiven g)) e)).map
+          (Format.formatKevent (showOf (Opts.ofGiven g)) qe codes t)) (Opts.ofGiven g).count) none := by
+  rw [kevents_command_ir_eq_hand_model qe codes t g hp hc, Format.formattedKevents, kevents_eq_filter]
+
+/-- **The three table commands of the source, interpreted**: a fresh `KdBufParser({}, {})`, the dump parsed to the end
+    (`list(parser.parse(dump))`: an exception of the parser ends the command before anything is printed), then ONE print:
+    `json.dumps(parser.<attr>, indent=4)` of `processes` / `kernel_extensions` / `images`. -/
+theorem table_commands_ir_eq_model {δ τ : Type} (W : World δ τ) (dump : δ) :
+    run Gen.PyIRCli.prog W Gen.PyIRCli.processes ({} : Given).args dump = tableResult W "processes" 4 dump ∧
+    run Gen.PyIRCli.prog W Gen.PyIRCli.kexts ({} : Given).args dump = tableResult W "kernel_extensions" 4 dump ∧
+    run Gen.PyIRCli.prog W Gen.PyIRCli.images ({} : Given).args dump = tableResult W "images" 4 dump := by
+  obtain ⟨_, _, _, _, _, h1, h2, h3, _⟩ := cli_source_is_expected_ir
+  rw [cli_prog_is_expected, h1, h2, h3]
+  exact ⟨run_table_expected W _ _ dump, run_table_expected W _ _ dump, run_table_expected W _ _ dump⟩
+
+/-- **`formatted_kevents` of the source, interpreted** (any meaning `M` of `self.kevents` / `self._format_kevent`):
+    `map` of `self._format_kevent(e, codes)` over `self.kevents(kdebug)` — the caller's code table, or
+    `default_trace_codes()` when none is given —, ending with the first exception of the formatter or with that of the
+    event listing. -/
+theorem formatted_kevents_ir_eq_model {δ ι κ : Type} (M : Methods δ ι κ) (o : Obj) (tc : Option κ) (dump : δ) :
+    runFormatted M Gen.PyIRCli.formattedKevents o tc dump =
+      mapGen (fun e => M.formatter "_format_kevent" o e [codesArg tc])
+        (M.source "kevents" o [.kdebug] dump).1 (M.source "kevents" o [.kdebug] dump).2 := by
+  rw [cli_source_is_expected_ir.2.2.2.2.2.2.2.2.2.2.1]; exact runFormatted_kevents M o tc dump
+
+/-- `BASED_INT` of the source is `int(value, 0)` with `ValueError` turned into a usage error. -/
+theorem based_int_ir_eq_model (text : String) : Gen.PyIRCli.basedInt.apply text = intBase0 text := by
+  rw [cli_source_is_expected_ir.2.1]; rfl
+
+private instance resultDecEq : DecidableEq Result := inferInstance
+
+private def exGiven : Given := { tid := some 7, classFilters := [4, 300], subclassFilters := [0x040c, 0x0301], count := some 2 }
+
+-- non-vacuity: the GENERATED command on the mixed stream above: thread 7, classes 4 / 300, two subclasses, two lines
+example : run Gen.PyIRCli.prog (keventsWorld Gen.Enums.DgbFuncQual [] {}) Gen.PyIRCli.kevents exGiven.args stream =
+    .ran ([ev 1 7 0x040c0004, ev 3 7 0x03010090].map (Format.formatKevent {} Gen.Enums.DgbFuncQual [] {})) none := by
+  decide +kernel
+-- … no option at all: every event, thread-id column off
+example : run Gen.PyIRCli.prog (keventsWorld Gen.Enums.DgbFuncQual [] {}) Gen.PyIRCli.kevents ({} : Given).args stream =
+    .ran ((events stream).map (Format.formatKevent {} Gen.Enums.DgbFuncQual [] {})) none := by decide +kernel
+-- … `--show-tid -c 0 --tid -5`
+example : run Gen.PyIRCli.prog (keventsWorld Gen.Enums.DgbFuncQual [] {}) Gen.PyIRCli.kevents
+    ({ showTid := some true, count := some 0, tid := some (-5) } : Given).args stream = .ran [] none := by decide +kernel
+-- … `--process` is not an option of `kevents`: click rejects the command line
+example : run Gen.PyIRCli.prog (keventsWorld Gen.Enums.DgbFuncQual [] {}) Gen.PyIRCli.kevents
+    ({ process := some "launchd" } : Given).args stream = .usage := by decide +kernel
+example : (Opts.ofGiven exGiven).count = 2 ∧ configOf (Opts.ofGiven exGiven) =
+    { filterTid := some 7, filterClass := [4, 300], filterSubclass := [0x040c, 0x0301] } := by decide
+example : Gen.PyIRCli.basedInt.apply "0x1f" = .ok 31 ∧ Gen.PyIRCli.basedInt.apply "0o17" = .ok 15 ∧
+    Gen.PyIRCli.basedInt.apply "-12" = .ok (-12) ∧ Gen.PyIRCli.basedInt.apply "010" = .error .valueError ∧
+    Gen.PyIRCli.basedInt.apply "0b101" = .ok 5 ∧ Gen.PyIRCli.basedInt.apply "4x" = .error .valueError ∧
+    Gen.PyIRCli.basedInt.apply "00" = .ok 0 ∧ Gen.PyIRCli.basedInt.apply "1_0" = .error .unmodelled := by decide
 
 end KdVerif.C12
